@@ -11,4 +11,11 @@ PROPS = {
         "assumptions": ["is.SetDebugMode/is.DebugMode and states.Env().GetDebugMode() are the same switch (observed by the harness after every SetLevel)",
                         "Go method promotion through *logimp adds no behaviour (entry points are analysed on *Entry)"],
     },
+    "C11": {
+        "modules": ["Logg.Props.C11"],
+        "flavor": "test",
+        "thorough_seeds": 1,
+        "explanation": "SetJSONMode/SetColorMode/setentry are regenerated from /repo; theorems: (JSON and colour) unreachable, every call and every sequence of calls refines the 3-state specification (induction), getters and encoder selection agree with the format, other loggers untouched. Correspondence: exhaustive enumeration of call sequences in three application styles.",
+        "assumptions": ["With*() = newChildLogger (inherits both bits, C10) followed by the Set* body; New(name, opts...) applies options in order"],
+    },
 }
